@@ -257,6 +257,10 @@ def run(ctx):
     # a commit's batch contains, and applies, every item
     D.loops_visit_all(ctx, "R-C06.10", only=("tx::write_tx::BaseTransaction::commit", "batch::WriteBatch::commit"))
 
+    # ---- R-C06.12 a read transaction of either transactional database IS Database::snapshot (same instant, same nonce)
+    from .. import wrappers as W
+    W.db_wrapper_forwarding(ctx, "R-C06.12", only=("read_tx",))
+
     # ---- borrowed obligations (mechanisms owned by other properties that this property's verdict also rests on)
     # a transaction's batch contains every keyspace's final writes (the dedupe never drops another keyspace's item)
     ctx.borrow("C08", ["R-C08.4"], "R-C06.7")
